@@ -286,13 +286,15 @@ func defaultPolicy(ld *loaded, stubs map[string]*ssa.Function) *sym.Policy {
 }
 
 type harnessResult struct {
-	ld        *loaded
-	stubs     map[string]*ssa.Function
-	h         *harness
-	ex        *sym.Exec
-	wall      float64
-	err       string
-	unreached []string
+	ld         *loaded
+	stubs      map[string]*ssa.Function
+	h          *harness
+	ex         *sym.Exec
+	wall       float64
+	err        string
+	unreached  []string
+	validated  int
+	mismatches []string
 }
 
 func cmdCheck(args []string) int {
@@ -303,6 +305,7 @@ func cmdCheck(args []string) int {
 	trace := fs.Bool("trace", false, "trace instructions")
 	jobs := fs.Int("j", 14, "parallel harnesses")
 	noEvidence := fs.Bool("no-evidence", false, "do not write the evidence file")
+	nValidate := fs.Int("validate", 2, "translator validation: concrete samples per harness pushed through engine and native build")
 	maxPaths := fs.Int("max-paths", 0, "path budget per harness")
 	fs.Parse(args)
 	if *prop == "" {
@@ -402,6 +405,15 @@ func cmdCheck(args []string) int {
 		}(i, h)
 	}
 	wg.Wait()
+
+	if os.Getenv("VERIF_NO_NATIVE") == "" && *nValidate > 0 {
+		for _, r := range results {
+			if r.ex == nil || r.h.opts["novalidate"] != "" || r.h.opts["preempt"] != "" {
+				continue
+			}
+			validateHarness(r, *nValidate)
+		}
+	}
 
 	return report(*prop, *tier, seed, results, start, loadT, !*noEvidence)
 }
@@ -585,6 +597,10 @@ func report(prop, tier string, seed int, results []*harnessResult, start time.Ti
 		for l, n := range st.Reached {
 			vacuity[r.h.name+":"+l] = n
 		}
+		traces += r.validated
+		for _, m := range r.mismatches {
+			inconclusive = append(inconclusive, r.h.name+": translator validation: "+m)
+		}
 		for _, l := range r.unreached {
 			inconclusive = append(inconclusive, fmt.Sprintf("%s: vacuity: witness %q never reached", r.h.name, l))
 		}
@@ -690,8 +706,8 @@ func report(prop, tier string, seed int, results []*harnessResult, start time.Ti
 		b, _ := json.MarshalIndent(ev, "", " ")
 		os.WriteFile(filepath.Join(verifDir, "evidence", prop+".json"), b, 0o644)
 	}
-	fmt.Printf("%s tier=%s harnesses=%d paths=%d instrs=%d obligations=%d discharged=%d violations=%d known=%d wall=%.1fs\n",
-		prop, tier, len(results), states, transitions, obligations, discharged, violations, knownHits, time.Since(start).Seconds())
+	fmt.Printf("%s tier=%s harnesses=%d paths=%d instrs=%d obligations=%d discharged=%d violations=%d known=%d validated=%d wall=%.1fs\n",
+		prop, tier, len(results), states, transitions, obligations, discharged, violations, knownHits, traces, time.Since(start).Seconds())
 	if len(inconclusive) > 0 {
 		for _, m := range inconclusive {
 			fmt.Printf("INCONCLUSIVE %s\n", m)
@@ -787,4 +803,81 @@ func stubsFor(h *harness, byPkg map[string]map[string]*ssa.Function) map[string]
 		}
 	}
 	return out
+}
+
+func fixedFromInputs(in map[string]interface{}) map[string]interface{} {
+	fixed := map[string]interface{}{}
+	for k, val := range in {
+		if m, ok := val.(map[string]interface{}); ok {
+			if s, ok := m["str"]; ok {
+				fixed[k] = s
+			} else if a, ok := m["atom"]; ok {
+				fixed[k] = fmt.Sprintf("@atom%v", a)
+			}
+			continue
+		}
+		fixed[k] = val
+	}
+	return fixed
+}
+
+// validateHarness pushes concrete inputs (models of explored paths) through both the engine
+// (concrete interpretation of the SSA) and the natively compiled harness and compares the
+// sequences of assertion outcomes and witnesses.
+func validateHarness(r *harnessResult, n int) {
+	samples := r.ex.Stats.Samples
+	if len(samples) > n {
+		// spread over the available samples
+		step := len(samples) / n
+		var pick []map[string]interface{}
+		for i := 0; i < n; i++ {
+			pick = append(pick, samples[i*step])
+		}
+		samples = pick
+	}
+	rel, name := harnessPkg(r.h)
+	for i, sm := range samples {
+		inputs, _ := sm["inputs"].(map[string]interface{})
+		if inputs == nil {
+			continue
+		}
+		var sched []int
+		if sl, ok := sm["sched"].([]int); ok {
+			sched = sl
+		}
+		if sched == nil {
+			sched = []int{}
+		}
+		// engine, concrete
+		pol := defaultPolicy(r.ld, r.stubs)
+		cfg := &sym.Config{Prog: r.ld.prog, Entry: r.h.fn, InitPkgs: []*ssa.Package{r.h.fn.Pkg}, Policy: pol,
+			LoopFuel: optInt(r.h, "quick", "fuel", 40), SchedBound: 1 << 20,
+			FixedInputs: fixedFromInputs(inputs), ForcedSched: sched, MaxPaths: 1}
+		ex, err := sym.NewExec(cfg)
+		if err != nil {
+			continue
+		}
+		ex.Run()
+		et := ex.FirstTrace
+		ex.Close()
+		// native
+		path := filepath.Join(verifDir, "replays", fmt.Sprintf("validate-%s-%d.json", r.h.name, i))
+		os.MkdirAll(filepath.Dir(path), 0o755)
+		b, _ := json.Marshal(map[string]interface{}{"harness": r.h.name, "inputs": inputs})
+		os.WriteFile(path, b, 0o644)
+		_, full, err := runNative(rel, name, r.h.name, path, 6)
+		os.Remove(path)
+		if err != nil {
+			r.mismatches = append(r.mismatches, fmt.Sprintf("native run failed: %v", err))
+			continue
+		}
+		nt := nativeTrace(full)
+		if strings.Join(et, "|") == strings.Join(nt, "|") {
+			if len(et) > 0 {
+				r.validated++
+			}
+		} else {
+			r.mismatches = append(r.mismatches, fmt.Sprintf("sample %d: engine trace %v != native trace %v (inputs %v)", i, et, nt, inputs))
+		}
+	}
 }
